@@ -57,7 +57,7 @@ def run_property(pid, tier, seed, replay=None):
             proof_broken = {'kind': 'proof-obligation', 'detail': 'Properties_%s.v no longer checks; first error: %s' % (pid, cq.get('first_error', '?')), 'theorems': cq['failed']}
 
         # ---- 2. builds
-        specs = mod.HARNESSES
+        specs = mod.harnesses(tier) if hasattr(mod, 'harnesses') else mod.HARNESSES
         hs = X.build_harnesses(specs)
         bad = {k: v[1] for k, v in hs.items() if v[0] is None}
         if bad:
